@@ -265,8 +265,10 @@ inline Value projNeighMoving(NeighMoving* n)
 inline Value queryNeighMoving(NeighMoving* n)
 {
   // (a selection with an absurd number of sectors allocates as much for an object built through the API)
-  Value q = (n->getNSect() > 64) ? Value::object() : neighSelect(n, n->getNDim());
+  // (the distance checker of an isotropic neighbourhood is 2-D whatever the space: selections are asked only when the
+  //  dimensions agree, as for an object built through the API)
   const BiTargetCheckDistance* b = n->getBiPtDist();
+  Value q = (n->getNSect() > 64 || b->getNDim() != (int)n->getNDim()) ? Value::object() : neighSelect(n, n->getNDim());
   VectorDouble dd(b->getNDim(), 1.);
   q["normdist"] = T(b->getNormalizedDistance(dd));
   return q;
